@@ -143,6 +143,10 @@ MsgStable   == Fresh => Stable(LastKind, LastPack)
 CounterSkippable == (Fresh /\ LastKind = "counter") =>
    Bind(DecHeader(LastBody, 3), LAMBDA h : h.ok /\ DX!DecBlobAt(LastBody, h.next).ok
                                            /\ DX!DecBlobAt(LastBody, h.next).next = Len(LastBody) + 1)
+\* the restated hash is the function of Hashes (C15), on strings of every length class
+HashTests == {<<>>, <<0>>, <<255>>, <<120, 49, 45, 65>>, [i \in 1..19 |-> (i * 37) % 256] \o <<>>,
+              [i \in 1..64 |-> 255 - i] \o <<>>}
+ASSUME \A t \in HashTests : Hash64(t) = H!Crc32Wide64(t)
 \* the world really contains both header forms and both states of an optional section
 HistOK == Len(hist) = Len(sent)
 =============================================================================
